@@ -27,6 +27,7 @@ func c06Ops(s []int) []ref.Op {
 
 func checkC06(c *core.Ctx) {
 	defer sweepC06(c)
+	defer selfCases(c, false, "move")
 	defer soakC06(c)
 	defer sweepConcatN(c, false)
 	defer gridC06(c)
